@@ -144,7 +144,7 @@ class C14(scen.PairProp):
                        "I": I, "N": N, "speed_change": True}
             elif r_mode < 0.75:
                 origin = 1000.0
-                t0 = origin + rng.random()
+                t0 = origin + 0.25 + rng.random()
                 scA, I = base_scenario(rng, N, humans, ps, origin, t0, rows)
                 scB, _ = base_scenario(rng, N, humans, ps, origin, t0, rows)
                 D = rng.choice([0.001, 0.004, 0.02, 0.3, 1.7, 9.0, 40.0]) * rng.uniform(0.8, 1.2)
@@ -164,7 +164,7 @@ class C14(scen.PairProp):
             else:
                 shift = rng.choice([1.0, 1.0e6, 1.7e9, 1.8e9 - 1000.0])
                 origin = 1000.0
-                t0 = origin + rng.random()
+                t0 = origin + 0.25 + rng.random()
                 kind = rng.choice(["wait", "regression"])
                 inertia = rng.choice([0.0, 0.5, 1.0])
                 scA, I = base_scenario(rng, N, humans, ps, origin, t0, rows, kind, inertia, 1.0, 0.0)
